@@ -1075,7 +1075,7 @@ def clenshaw_q2d_der(cns, m, usq, j=1, alphas=None):
     # return alphas
     for jj in range(1, j+1):
         _, b, _ = abc_q2d_clenshaw(N-jj, m)
-        alphas[jj][N-jj] = j * b * alphas[jj-1][N-jj+1]
+        alphas[jj][N-jj] = jj * b * alphas[jj-1][N-jj+1]
         for n in range(N-jj-1, -1, -1):
             a, b, _ = abc_q2d_clenshaw(n, m)
             _, _, c = abc_q2d_clenshaw(n+1, m)
